@@ -380,6 +380,12 @@ func runCircuit(r *vcore.Run, ops *cvapi.Ops, idx int) {
 				r.Count("byte-flip.decodes-to-same-proof", 1)
 				continue
 			}
+			if eq, ok := ops.Ext["G16ProofEqualButPok"].(func(a, b any) bool); ok && nbCommit == 0 && eq(q, g.proof) {
+				// same rule as for the single edits: the key prescribes no commitment, so
+				// the proof of knowledge is not a component of the statement being verified
+				r.Count("byte-flip.component-absent(CommitmentPok,no-commitment-key)", 1)
+				continue
+			}
 			err, pan := verify(q, vk, pw)
 			if pan != "" {
 				r.Violation("verify-panic/byte-flip", pan, map[string]any{"curve": ops.Name, "bytes_hex": fmt.Sprintf("%x", b)})
@@ -440,8 +446,12 @@ func dishonest(c *caseCtx, pk groth16.ProvingKey, pub, sec []*big.Int, rng *rand
 		targets = append(targets, target{"internal", nbPub + nbSec + rng.IntN(nbInt)})
 		targets = append(targets, target{"internal", nbPub + nbSec + rng.IntN(nbInt)})
 	}
+	privCommitted := map[int]bool{}
 	if ci, ok := c.ccs.GetCommitments().(constraint.Groth16Commitments); ok {
 		for _, cm := range ci {
+			for _, w := range cm.PrivateCommitted {
+				privCommitted[w] = true
+			}
 			targets = append(targets, target{"commitment-wire", cm.CommitmentIndex})
 			if len(cm.PrivateCommitted) > 0 {
 				targets = append(targets, target{"private-committed", cm.PrivateCommitted[rng.IntN(len(cm.PrivateCommitted))]})
@@ -452,6 +462,7 @@ func dishonest(c *caseCtx, pk groth16.ProvingKey, pub, sec []*big.Int, rng *rand
 		for _, recompute := range []bool{false, true} {
 			name := fmt.Sprintf("wire[%d](%s)+=1,recomputeABC=%v", tg.wire, tg.class, recompute)
 			var badRows int
+			var abChanged, cChanged bool
 			var newPub []*big.Int
 			var hookErr error
 			fired := false
@@ -470,6 +481,20 @@ func dishonest(c *caseCtx, pk groth16.ProvingKey, pub, sec []*big.Int, rng *rand
 					return
 				}
 				badRows = len(res.BadRows)
+				// does the prover read the edited value at all?  Without recomputed
+				// row evaluations it enters the proof only through the MSMs over the
+				// wire vector: Ar (wire occurs in an A column), Bs (B column) and Krs
+				// (any column, and only for wires whose K element is in the proving
+				// key: not public, not a commitment wire, not privately committed —
+				// the commitment itself was computed before the hook fired).
+				for i := range res.A {
+					if res.A[i].Cmp(ev.A.Get(i)) != 0 || res.B[i].Cmp(ev.B.Get(i)) != 0 {
+						abChanged = true
+					}
+					if res.C[i].Cmp(ev.C.Get(i)) != 0 {
+						cChanged = true
+					}
+				}
 				if recompute {
 					for i := range res.A {
 						ev.A.Set(i, res.A[i])
@@ -505,6 +530,14 @@ func dishonest(c *caseCtx, pk groth16.ProvingKey, pub, sec []*big.Int, rng *rand
 			if badRows == 0 {
 				r.Eval(c.label+"|dishonest-trivial|"+name, false)
 				r.Count("dishonest-prover.edit-left-all-rows-satisfied(skipped)", 1)
+				continue
+			}
+			inKrs := tg.class == "internal" || (tg.class == "secret" && !privCommitted[tg.wire])
+			if !recompute && !abChanged && !(cChanged && inKrs) {
+				// e.g. a privately committed wire that only occurs in C columns: the
+				// proof is the honest one, accepting it is correct
+				r.Eval(c.label+"|dishonest-unread|"+name, false)
+				r.Count("dishonest-prover.edited-value-never-read-by-the-prover(skipped)", 1)
 				continue
 			}
 			c.expectReject("dishonest-prover", name+"|vs-original-public", proof, pub)
